@@ -122,7 +122,8 @@ pub fn run(tier: Tier) -> i32 {
     let ctx = Ctx::new("C17", tier, "model_checking");
     ctx.set_rule("case = (handshake name incl. every psk set, DH in {25519, P256}, role, remote key supplied {as required, true key although transmitted, unrelated key where none is pre-shared}, transport mode); get_remote_static compared with the model at every point: before the first message, after every call on both sides, after conversion to either transport mode and after transport traffic, also with failing reads/writes interposed around every read; non-trivial = a key was reported at some point");
     let mut cases: Vec<(Proto, Extra, Mode, bool)> = vec![];
-    let suites: Vec<(DhAlg, CipherAlg, HashAlg)> = if ctx.quick() {
+    // all four suites cost ~5 s: both tiers run them
+    let suites: Vec<(DhAlg, CipherAlg, HashAlg)> = if false && ctx.quick() {
         vec![(DhAlg::X25519, CipherAlg::ChaChaPoly, HashAlg::Blake2s), (DhAlg::P256, CipherAlg::AesGcm, HashAlg::Sha256)]
     } else {
         vec![(DhAlg::X25519, CipherAlg::ChaChaPoly, HashAlg::Blake2s), (DhAlg::P256, CipherAlg::AesGcm, HashAlg::Sha256), (DhAlg::P256, CipherAlg::XChaChaPoly, HashAlg::Sha512), (DhAlg::X25519, CipherAlg::AesGcm, HashAlg::Blake2b)]
